@@ -65,13 +65,32 @@ def step_attr(t):
     return None
 
 
-def last_step_component(t, k):
-    """``<steps>[-1][k]`` -> 'steps' | 'steps_' | None."""
+def step_component(t, k):
+    """``<steps>[i][k]`` with a constant position i -> (attr, i), else None."""
     if isinstance(t, tuple) and t[0] == "item" and t[2] == ("const", k):
         inner = t[1]
-        if isinstance(inner, tuple) and inner[0] == "item" and inner[2] == ("const", -1):
-            return step_attr(inner[1])
+        if isinstance(inner, tuple) and inner[0] == "item" and is_const(inner[2]) and isinstance(inner[2][1], int):
+            a = step_attr(inner[1])
+            if a:
+                return a, inner[2][1]
     return None
+
+
+def last_step_component(t, k):
+    """``<steps>[-1][k]`` -> 'steps' | 'steps_' | None."""
+    sc = step_component(t, k)
+    return sc[0] if sc is not None and sc[1] == -1 else None
+
+
+def wrong_step(ctx, res, construct, events, what):
+    """A call that should go to the last step's forecaster goes to another fixed step: VIOLATION (True if reported)."""
+    for e in events:
+        src = is_clone_of(res, e.recv)
+        sc = step_component(src if src is not None else e.recv, 1)
+        if sc is not None and sc[1] != -1:
+            ctx.violation("R1", construct, "%s is sent to steps[%d], not to the last step (the forecaster)" % (what, sc[1]), loc_of(e))
+            return True
+    return False
 
 
 class TLoop:
@@ -200,13 +219,11 @@ def r1_fit(ctx, repo, cls):
         if last_step_component(src if src is not None else e.recv, 1):
             final.append((e, src))
     if not final:
-        for e in fits:
-            src = is_clone_of(res, e.recv)
-            t = src if src is not None else e.recv
-            if isinstance(t, tuple) and t[0] == "item" and t[2] == ("const", 1) and isinstance(t[1], tuple) and t[1][0] == "item" \
-                    and is_const(t[1][2]) and t[1][2][1] != -1 and step_attr(t[1][1]):
-                ctx.violation("R1", C + ":final-forecaster", "the estimator fitted as forecaster is steps[%r], not the last step" % (t[1][2][1],), loc_of(e))
-                return
+        if wrong_step(ctx, res, C + ":final-forecaster", fits, "fit"):
+            return
+        if not fits:
+            ctx.violation("R1", C + ":final-forecaster", "the final forecaster is never fitted", ctx.loc(cls.module, cls.methods["fit"]))
+            return
     if len(final) != 1:
         ctx.undecided("R1", C + ":final-forecaster", "expected one fit call on the final step's forecaster, found %d" % len(final),
                       ctx.loc(cls.module, cls.methods["fit"]))
@@ -314,6 +331,8 @@ def r1_predict(ctx, repo, cls):
     value = rets[0][0]
     preds = [e for e in res.calls("predict", kind=("call",)) if e.target.kind == "attr"]
     pe = [e for e in preds if last_step_component(e.recv, 1)]
+    if not pe and wrong_step(ctx, res, C + ":forecast", preds, "predict"):
+        return
     if len(pe) != 1:
         ctx.undecided("R1", C + ":forecast", "expected one predict call on the final step, found %d" % len(pe), loc0)
         return
@@ -373,7 +392,12 @@ def r1_update(ctx, repo, cls):
     loc0 = ctx.loc(cls.module, fn)
     ups = [e for e in res.calls("update", kind=("call",)) if e.target.kind == "attr"]
     fin = [e for e in ups if last_step_component(e.recv, 1)]
-    if len(fin) != 1:
+    if not fin and wrong_step(ctx, res, C + ":final-forecaster", ups, "update"):
+        pass
+    elif not fin:
+        ctx.ok("R1", C + ":final-forecaster-data", "the final forecaster is not updated here (representation clause vacuous; propagation is C10-R4)", loc0,
+               nontrivial=False)
+    elif len(fin) != 1:
         ctx.undecided("R1", C + ":final-forecaster", "expected one update call on the final step, found %d" % len(fin), loc0)
     else:
         ef = fin[0]
@@ -388,7 +412,7 @@ def r1_update(ctx, repo, cls):
     # transformer updates
     tu = [e for e in ups if e not in fin and res.loops_of(e)]
     if not tu:
-        ctx.undecided("R1", C + ":transformer-data", "no transformer update inside a loop over the steps", loc0)
+        ctx.ok("R1", C + ":transformer-data", "no transformer is updated here (representation clause vacuous; propagation is C10-R4)", loc0, nontrivial=False)
         return
     for e in tu:
         L = res.loops[res.loops_of(e)[-1]]
@@ -495,6 +519,9 @@ def r2_fit(ctx, repo, cls):
     loc0 = ctx.loc(cls.module, fn)
     sig = fsig(repo, "fit")
     mf = member_fit_events(res)
+    if not mf and not [e for e in res.calls("fit", kind=("call",)) if e.target.kind == "attr"]:
+        ctx.violation("R2", C + ":all-members", "the members are never fitted", loc0)
+        return
     if len(mf) != 1:
         ctx.undecided("R2", C + ":members", "expected one member fit site, found %d" % len(mf), loc0)
         return
@@ -751,7 +778,12 @@ def r3(ctx, repo):
     C3 = "MultiplexForecaster.fit"
     fits = [e for e in res3.calls("fit", kind=("call",)) if e.target.kind == "attr"]
     sf = res3.calls("_set_forecaster", kind=("inline", "call"))
-    if len(fits) != 1 or not sf:
+    if not fits:
+        ctx.violation("R3", C3 + ":delegate", "the selected forecaster is never fitted", ctx.loc(cls.module, fn3))
+    elif len(fits) == 1 and not sf and not res3.stores("_forecaster"):
+        ctx.violation("R3", C3 + ":delegate", "fit is delegated to whatever _forecaster held before: the selection (_set_forecaster) is not performed",
+                      loc_of(fits[0]))
+    elif len(fits) != 1 or not sf:
         ctx.undecided("R3", C3 + ":delegate", "expected one inner fit and a _set_forecaster call", ctx.loc(cls.module, fn3))
     else:
         e = fits[0]
@@ -773,6 +805,9 @@ def r3(ctx, repo):
         inner = "predict" if method == "_predict" else "update"
         Cm = "MultiplexForecaster." + method
         evs = [e for e in r.calls(inner, kind=("call",)) if e.target.kind == "attr"]
+        if not evs:
+            ctx.violation("R3", Cm + ":delegate", "%s does not delegate to the selected forecaster at all" % method, ctx.loc(cls.module, fnm))
+            continue
         if len(evs) != 1:
             ctx.undecided("R3", Cm + ":delegate", "expected one inner %s call, found %d" % (inner, len(evs)), ctx.loc(cls.module, fnm))
             continue
@@ -881,6 +916,9 @@ def r4(ctx, repo):
     # --- member forecasts used as meta features
     reg = [e for e in res.calls("fit", kind=("call",)) if e.target.kind == "attr" and e not in (et, efull)]
     reg = [e for e in reg if (is_clone_of(res, e.recv) or e.recv) in (("attr0", "final_regressor"),)]
+    if not reg and not [e for e in res.calls("fit", kind=("call",)) if e.target.kind == "attr" and e not in (et, efull)]:
+        ctx.violation("R4", C + ":meta-regressor", "the meta-regressor is never fitted", loc0)
+        return
     if len(reg) != 1:
         ctx.undecided("R4", C + ":meta-regressor", "expected one fit of the final regressor, found %d" % len(reg), loc0)
         return
